@@ -44,6 +44,50 @@ pub fn same_arr<F: Float, S1: Data<Elem = F>, S2: Data<Elem = F>, D: Dimension>(
     ctx.require(x == y, clause, class, || format!("{}: original {:?} restored {:?}", what, a.iter().map(|v| v.to_f64().unwrap()).take(12).collect::<Vec<_>>(), b.iter().map(|v| v.to_f64().unwrap()).take(12).collect::<Vec<_>>()));
 }
 
+/// every public image of the value counts: the `Debug` text prints every field, also the ones a
+/// hand-written `PartialEq` ignores or a `serde(skip)` silently resets (floats print in shortest
+/// round-trip form, so different finite bit patterns print differently)
+/// ndarray prints `strides=[..], layout=.. (0x..)` after every array: the memory layout of an array
+/// is not part of the value (a column-major original is restored row-major) — dropped; the shape stays
+pub fn strip_layout(s: &str) -> String {
+    let mut out = String::with_capacity(s.len());
+    let mut rest = s;
+    while let Some(i) = rest.find(", strides=[") {
+        out.push_str(&rest[..i]);
+        let tail = &rest[i..];
+        let cut = match tail.find(", layout=") {
+            Some(j) => match tail[j..].find(')') {
+                Some(k) => j + k + 1,
+                None => tail.len(),
+            },
+            None => match tail.find(']') {
+                Some(k) => k + 1,
+                None => tail.len(),
+            },
+        };
+        rest = &tail[cut..];
+    }
+    out.push_str(rest);
+    out
+}
+
+pub fn dbg_same<T: std::fmt::Debug>(ctx: &mut Ctx, class: &str, a: &T, b: &T) {
+    let (x, y) = (strip_layout(&format!("{:?}", a)), strip_layout(&format!("{:?}", b)));
+    ctx.require(x == y, "accessors", class, || {
+        let pos = x.bytes().zip(y.bytes()).position(|(p, q)| p != q).unwrap_or(0);
+        let lo = pos.saturating_sub(40);
+        let cut = |s: &str| s.chars().skip(lo).take(100).collect::<String>();
+        format!("Debug image of the restored value differs at char {}: …{}… vs …{}…", pos, cut(&x), cut(&y))
+    });
+}
+
+/// `DecisionTree::features()` collects into a fresh `HashSet` on every call: its order changes from call to
+/// call on the same tree (C20's subject), it is a set
+pub fn sorted(mut v: Vec<usize>) -> Vec<usize> {
+    v.sort();
+    v
+}
+
 /// generic (non-lattice) records: offsets, scales, duplicates
 pub fn records<F: Float>(rng: &mut Rng, n: usize, p: usize) -> Array2<F> {
     let scale = [1.0, 1e-3, 1e3, 7.25][rng.below(4)];
@@ -74,12 +118,12 @@ fn linear<F: Fl>(em: &mut Em, rng: &mut Rng, sw: &mut Sweep) {
         let params = LinearRegression::new().with_intercept(it == 0);
         let ds2 = ds.clone();
         rt(em, sw, "linfa-linear::LinearRegression", tag, Norm::Exact, &params, &|a, b, ctx, class| {
-            ctx.require(a == b, "equal", class, || format!("{:?} vs {:?}", a, b));
+            ctx.require(a == b || a != a, "equal", class, || format!("{:?} vs {:?}", a, b)); dbg_same(ctx, class, a, b);
             refit_same(ctx, class, &|| fp::<FittedLinearRegression<F>, _>(a.fit(&ds2)), &|| fp::<FittedLinearRegression<F>, _>(b.fit(&ds2)));
         });
         let model: FittedLinearRegression<F> = params.fit(&ds).unwrap();
         rt(em, sw, "linfa-linear::FittedLinearRegression", tag, Norm::Exact, &model, &|a, b, ctx, class| {
-            ctx.require(a == b, "equal", class, || format!("{:?} vs {:?}", a, b));
+            ctx.require(a == b || a != a, "equal", class, || format!("{:?} vs {:?}", a, b)); dbg_same(ctx, class, a, b);
             same_arr(ctx, "accessors", class, "params", a.params(), b.params());
             ctx.require(fb(a.intercept()) == fb(b.intercept()), "accessors", class, || "intercept".into());
             same_arr(ctx, "predict", class, "predict", &a.predict(&fresh), &b.predict(&fresh));
@@ -87,13 +131,15 @@ fn linear<F: Fl>(em: &mut Em, rng: &mut Rng, sw: &mut Sweep) {
     }
     for link in [Link::Identity, Link::Log, Link::Logit] {
         rt(em, sw, "linfa-linear::Link", tag, Norm::Exact, &link, &|a, b, ctx, class| {
-            ctx.require(a == b, "equal", class, || format!("{:?} vs {:?}", a, b));
+            ctx.require(a == b || a != a, "equal", class, || format!("{:?} vs {:?}", a, b)); dbg_same(ctx, class, a, b);
         });
     }
 }
 
 
 pub static NONDET: std::sync::atomic::AtomicU64 = std::sync::atomic::AtomicU64::new(0);
+/// refit comparisons that were really made (coverage floor: the nondeterminism skip must not swallow them)
+pub static REFIT_COMPARED: std::sync::atomic::AtomicU64 = std::sync::atomic::AtomicU64::new(0);
 
 /// fingerprint of a fit result: canonical text of the fitted model (all serialised quantities, bit
 /// patterns), or the error
@@ -114,6 +160,7 @@ pub fn refit_same(ctx: &mut Ctx, class: &str, fa: &dyn Fn() -> String, fb_: &dyn
         return;
     }
     let b = fb_();
+    REFIT_COMPARED.fetch_add(1, std::sync::atomic::Ordering::Relaxed);
     if a1.starts_with("err:") != b.starts_with("err:") {
         ctx.fail("validate", class, format!("original: {} restored: {}", &a1[..a1.len().min(80)], &b[..b.len().min(80)]));
     } else if a1 != b {
@@ -123,9 +170,15 @@ pub fn refit_same(ctx: &mut Ctx, class: &str, fa: &dyn Fn() -> String, fb_: &dyn
     }
 }
 
+// `==` is demanded "wherever equality is defined": a value holding a NaN is not equal to itself under the
+// derived `PartialEq`, so `a == b` is required only when `a == a`; the bit patterns are still compared
+// through the canonical text, the Debug image and the accessors
 macro_rules! eqb {
     () => {
-        &|a, b, ctx: &mut Ctx, class: &str| ctx.require(a == b, "equal", class, || format!("{:?} vs {:?}", a, b))
+        &|a, b, ctx: &mut Ctx, class: &str| {
+            ctx.require(a == b || a != a, "equal", class, || format!("{:?} vs {:?}", a, b));
+            dbg_same(ctx, class, a, b);
+        }
     };
 }
 
@@ -151,7 +204,7 @@ fn $fname(em: &mut Em, rng: &mut Rng, sw: &mut Sweep) {
         let ds = Dataset::new(x.clone(), y.clone());
         let model: FittedIsotonicRegression<F> = IsotonicRegression::new().fit(&ds).unwrap();
         rt(em, sw, "linfa-linear::FittedIsotonicRegression", tag, Norm::Exact, &model, &|a, b, ctx, class| {
-            ctx.require(a == b, "equal", class, || format!("{:?} vs {:?}", a, b));
+            ctx.require(a == b || a != a, "equal", class, || format!("{:?} vs {:?}", a, b)); dbg_same(ctx, class, a, b);
             same_arr(ctx, "predict", class, "predict", &a.predict(&fresh), &b.predict(&fresh));
         });
         // Tweedie
@@ -168,13 +221,13 @@ fn $fname(em: &mut Em, rng: &mut Rng, sw: &mut Sweep) {
         let vp: TweedieRegressorValidParams<F> = pr.check().unwrap();
         let ds2 = ds.clone();
         rt(em, sw, "linfa-linear::TweedieRegressorValidParams", tag, Norm::Exact, &vp, &|a, b, ctx, class| {
-            ctx.require(a == b, "equal", class, || format!("{:?} vs {:?}", a, b));
+            ctx.require(a == b || a != a, "equal", class, || format!("{:?} vs {:?}", a, b)); dbg_same(ctx, class, a, b);
             ctx.require(fb(a.alpha()) == fb(b.alpha()) && fb(a.power()) == fb(b.power()) && a.link() == b.link() && a.max_iter() == b.max_iter() && fb(a.tol()) == fb(b.tol()) && a.fit_intercept() == b.fit_intercept(), "accessors", class, || "parameter accessor differs".into());
             refit_same(ctx, class, &|| fp(a.fit(&ds2)), &|| fp(b.fit(&ds2)));
         });
         if let Ok(model) = vp.fit(&ds) {
             rt(em, sw, "linfa-linear::TweedieRegressor", tag, Norm::Exact, &model, &|a: &TweedieRegressor<F>, b, ctx, class| {
-                ctx.require(a == b, "equal", class, || format!("{:?} vs {:?}", a, b));
+                ctx.require(a == b || a != a, "equal", class, || format!("{:?} vs {:?}", a, b)); dbg_same(ctx, class, a, b);
                 same_arr(ctx, "predict", class, "predict", &a.predict(&fresh), &b.predict(&fresh));
             });
         }
@@ -196,13 +249,13 @@ fn bayes<F: Fl>(em: &mut Em, rng: &mut Rng, sw: &mut Sweep) {
         let vp: GaussianNbValidParams<F, usize> = GaussianNb::params().var_smoothing(F::cast([1e-9, 1e-3, 0.25][rng.below(3)])).check().unwrap();
         let ds2 = ds.clone();
         rt(em, sw, "linfa-bayes::GaussianNbValidParams", tag, Norm::Exact, &vp, &|a, b, ctx, class| {
-            ctx.require(a == b, "equal", class, || format!("{:?} vs {:?}", a, b));
+            ctx.require(a == b || a != a, "equal", class, || format!("{:?} vs {:?}", a, b)); dbg_same(ctx, class, a, b);
             ctx.require(fb(a.var_smoothing()) == fb(b.var_smoothing()), "accessors", class, || "var_smoothing".into());
             refit_same(ctx, class, &|| fp(a.fit(&ds2)), &|| fp(b.fit(&ds2)));
         });
         let model: GaussianNb<F, usize> = vp.fit(&ds).unwrap();
         rt(em, sw, "linfa-bayes::GaussianNb", tag, Norm::SortMaps, &model, &|a, b, ctx, class| {
-            ctx.require(a == b, "equal", class, || format!("{:?} vs {:?}", a, b));
+            ctx.require(a == b || a != a, "equal", class, || format!("{:?} vs {:?}", a, b));
             // (a degenerate model whose predict panics on NaN scores must do so before and after alike)
             let pa = std::panic::catch_unwind(std::panic::AssertUnwindSafe(|| a.predict(&fresh))).ok();
             let pb = std::panic::catch_unwind(std::panic::AssertUnwindSafe(|| b.predict(&fresh))).ok();
@@ -215,13 +268,13 @@ fn bayes<F: Fl>(em: &mut Em, rng: &mut Rng, sw: &mut Sweep) {
         let vp: MultinomialNbValidParams<F, usize> = MultinomialNb::params().alpha(F::cast([1.0, 0.5, 0.01][rng.below(3)])).check().unwrap();
         let ds2 = dsc.clone();
         rt(em, sw, "linfa-bayes::MultinomialNbValidParams", tag, Norm::Exact, &vp, &|a, b, ctx, class| {
-            ctx.require(a == b, "equal", class, || format!("{:?} vs {:?}", a, b));
+            ctx.require(a == b || a != a, "equal", class, || format!("{:?} vs {:?}", a, b)); dbg_same(ctx, class, a, b);
             ctx.require(fb(a.alpha()) == fb(b.alpha()), "accessors", class, || "alpha".into());
             refit_same(ctx, class, &|| fp(a.fit(&ds2)), &|| fp(b.fit(&ds2)));
         });
         let model: MultinomialNb<F, usize> = vp.fit(&dsc).unwrap();
         rt(em, sw, "linfa-bayes::MultinomialNb", tag, Norm::SortMaps, &model, &|a, b, ctx, class| {
-            ctx.require(a == b, "equal", class, || format!("{:?} vs {:?}", a, b));
+            ctx.require(a == b || a != a, "equal", class, || format!("{:?} vs {:?}", a, b));
             let pa = std::panic::catch_unwind(std::panic::AssertUnwindSafe(|| a.predict(&freshc))).ok();
             let pb = std::panic::catch_unwind(std::panic::AssertUnwindSafe(|| b.predict(&freshc))).ok();
             ctx.require(pa == pb, "predict", class, || "predictions differ".into());
@@ -243,7 +296,7 @@ fn nn_types<F: Fl>(em: &mut Em, rng: &mut Rng, sw: &mut Sweep) {
     for c in [CommonNearestNeighbour::LinearSearch, CommonNearestNeighbour::KdTree, CommonNearestNeighbour::BallTree] {
         let pts = pts.clone();
         rt(em, sw, "linfa-nn::CommonNearestNeighbour", tag, Norm::Exact, &c, &|a, b, ctx, class| {
-            ctx.require(a == b, "equal", class, || format!("{:?} vs {:?}", a, b));
+            ctx.require(a == b || a != a, "equal", class, || format!("{:?} vs {:?}", a, b)); dbg_same(ctx, class, a, b);
             let (ia, ib) = (a.from_batch(&pts, L2Dist).unwrap(), b.from_batch(&pts, L2Dist).unwrap());
             let q = pts.row(3);
             let ra: Vec<usize> = ia.k_nearest(q, 4).unwrap().into_iter().map(|x| x.1).collect();
@@ -255,7 +308,7 @@ fn nn_types<F: Fl>(em: &mut Em, rng: &mut Rng, sw: &mut Sweep) {
         let d = LpDist(F::cast(pw));
         let pts = pts.clone();
         rt(em, sw, "linfa-nn::LpDist", tag, Norm::Exact, &d, &|a, b, ctx, class| {
-            ctx.require(a == b, "equal", class, || format!("{:?} vs {:?}", a, b));
+            ctx.require(a == b || a != a, "equal", class, || format!("{:?} vs {:?}", a, b)); dbg_same(ctx, class, a, b);
             ctx.require(fb(a.distance(pts.row(0), pts.row(1))) == fb(b.distance(pts.row(0), pts.row(1))), "predict", class, || "distance differs".into());
         });
     }
@@ -268,8 +321,8 @@ fn clustering<F: Fl>(em: &mut Em, rng: &mut Rng, sw: &mut Sweep) {
     use rand_xoshiro::Xoshiro256Plus;
     use rand::SeedableRng;
     let tag = F::NAME;
-    rt(em, sw, "linfa-clustering::Dbscan", tag, Norm::Exact, &Dbscan, &|_, _, _, _| {});
-    rt(em, sw, "linfa-clustering::Optics", tag, Norm::Exact, &Optics, &|_, _, _, _| {});
+    rt(em, sw, "linfa-clustering::Dbscan", tag, Norm::Exact, &Dbscan, eqb!());
+    rt(em, sw, "linfa-clustering::Optics", tag, Norm::Exact, &Optics, eqb!());
     rt(em, sw, "linfa-clustering::GmmCovarType", tag, Norm::Exact, &GmmCovarType::Full, eqb!());
     for m in [GmmInitMethod::KMeans, GmmInitMethod::Random] {
         rt(em, sw, "linfa-clustering::GmmInitMethod", tag, Norm::Exact, &m, eqb!());
@@ -293,6 +346,7 @@ fn clustering<F: Fl>(em: &mut Em, rng: &mut Rng, sw: &mut Sweep) {
         let ds2 = ds.clone();
         let fresh2 = fresh.clone();
         let kbehav = move |ma: &KMeans<F, L2Dist>, mb: &KMeans<F, L2Dist>, ctx: &mut Ctx, class: &str, clause: &str| {
+            dbg_same(ctx, class, ma, mb);
             same_arr(ctx, clause, class, "centroids", ma.centroids(), mb.centroids());
             same_arr(ctx, clause, class, "cluster_count", ma.cluster_count(), mb.cluster_count());
             ctx.require(fb(ma.inertia()) == fb(mb.inertia()), clause, class, || "inertia".into());
@@ -300,7 +354,7 @@ fn clustering<F: Fl>(em: &mut Em, rng: &mut Rng, sw: &mut Sweep) {
             same_arr(ctx, "predict", class, "transform", &ma.transform(&fresh2), &mb.transform(&fresh2));
         };
         rt(em, sw, "linfa-clustering::KMeansParams", tag, Norm::Exact, &params, &|a, b, ctx, class| {
-            ctx.require(a == b, "equal", class, || format!("{:?} vs {:?}", a, b));
+            ctx.require(a == b || a != a, "equal", class, || format!("{:?} vs {:?}", a, b)); dbg_same(ctx, class, a, b);
             if para {
                 NONDET.fetch_add(1, std::sync::atomic::Ordering::Relaxed);
                 return;
@@ -314,7 +368,7 @@ fn clustering<F: Fl>(em: &mut Em, rng: &mut Rng, sw: &mut Sweep) {
         let vp = params.clone().check().unwrap();
         let ds2 = ds.clone();
         rt(em, sw, "linfa-clustering::KMeansValidParams", tag, Norm::Exact, &vp, &|a, b, ctx, class| {
-            ctx.require(a == b, "equal", class, || format!("{:?} vs {:?}", a, b));
+            ctx.require(a == b || a != a, "equal", class, || format!("{:?} vs {:?}", a, b)); dbg_same(ctx, class, a, b);
             ctx.require(a.n_runs() == b.n_runs() && fb(a.tolerance()) == fb(b.tolerance()) && a.max_n_iterations() == b.max_n_iterations() && a.n_clusters() == b.n_clusters() && a.init_method() == b.init_method() && a.rng() == b.rng(), "accessors", class, || "accessor differs".into());
             if para {
                 NONDET.fetch_add(1, std::sync::atomic::Ordering::Relaxed);
@@ -331,7 +385,8 @@ fn clustering<F: Fl>(em: &mut Em, rng: &mut Rng, sw: &mut Sweep) {
         let ds2 = ds.clone();
         let fresh2 = fresh.clone();
         let gbehav = move |ma: &GaussianMixtureModel<F>, mb: &GaussianMixtureModel<F>, ctx: &mut Ctx, class: &str, clause: &str| {
-            ctx.require(ma == mb, if clause == "refit" { "refit" } else { "equal" }, class, || "models differ".into());
+            ctx.require(ma == mb || ma != ma, if clause == "refit" { "refit" } else { "equal" }, class, || "models differ".into());
+            dbg_same(ctx, class, ma, mb);
             same_arr(ctx, clause, class, "weights", ma.weights(), mb.weights());
             same_arr(ctx, clause, class, "means", ma.means(), mb.means());
             same_arr(ctx, clause, class, "covariances", ma.covariances(), mb.covariances());
@@ -340,7 +395,7 @@ fn clustering<F: Fl>(em: &mut Em, rng: &mut Rng, sw: &mut Sweep) {
             same_arr(ctx, "predict", class, "predict_proba", &ma.predict_proba(&fresh2), &mb.predict_proba(&fresh2));
         };
         rt(em, sw, "linfa-clustering::GmmParams", tag, Norm::Exact, &gp, &|a, b, ctx, class| {
-            ctx.require(a == b, "equal", class, || format!("{:?} vs {:?}", a, b));
+            ctx.require(a == b || a != a, "equal", class, || format!("{:?} vs {:?}", a, b)); dbg_same(ctx, class, a, b);
             refit_same(ctx, class, &|| fp(a.fit(&ds2)), &|| fp(b.fit(&ds2)));
         });
         let badg = GaussianMixtureModel::<F>::params_with_rng(0, Xoshiro256Plus::seed_from_u64(1)).tolerance(F::cast(-1.0));
@@ -350,7 +405,7 @@ fn clustering<F: Fl>(em: &mut Em, rng: &mut Rng, sw: &mut Sweep) {
         let gvp = gp.clone().check().unwrap();
         let ds2 = ds.clone();
         rt(em, sw, "linfa-clustering::GmmValidParams", tag, Norm::Exact, &gvp, &|a, b, ctx, class| {
-            ctx.require(a == b, "equal", class, || format!("{:?} vs {:?}", a, b));
+            ctx.require(a == b || a != a, "equal", class, || format!("{:?} vs {:?}", a, b)); dbg_same(ctx, class, a, b);
             refit_same(ctx, class, &|| fp(a.fit(&ds2)), &|| fp(b.fit(&ds2)));
         });
         if let Ok(model) = gvp.fit(&ds) {
@@ -362,20 +417,20 @@ fn clustering<F: Fl>(em: &mut Em, rng: &mut Rng, sw: &mut Sweep) {
         let dvp = Dbscan::params_with::<F, _, _>(2 + rng.below(3), L2Dist, nn.clone()).tolerance(F::cast(1.5)).check().unwrap();
         let x2 = x.clone();
         rt(em, sw, "linfa-clustering::DbscanValidParams", tag, Norm::Exact, &dvp, &|a, b, ctx, class| {
-            ctx.require(a == b, "equal", class, || format!("{:?} vs {:?}", a, b));
+            ctx.require(a == b || a != a, "equal", class, || format!("{:?} vs {:?}", a, b)); dbg_same(ctx, class, a, b);
             ctx.require(fb(a.tolerance()) == fb(b.tolerance()) && a.minimum_points() == b.minimum_points() && a.nn_algo() == b.nn_algo() && a.dist_fn() == b.dist_fn(), "accessors", class, || "accessor differs".into());
             refit_same(ctx, class, &|| fp::<_, String>(Ok(a.transform(&x2))), &|| fp::<_, String>(Ok(b.transform(&x2))));
         });
         let dvp1 = Dbscan::params_with::<F, _, _>(3, L1Dist, nn.clone()).tolerance(F::cast(2.0)).check().unwrap();
         let x2 = x.clone();
         rt(em, sw, "linfa-clustering::DbscanValidParams", tag, Norm::Exact, &dvp1, &|a, b, ctx, class| {
-            ctx.require(a == b, "equal", class, || format!("{:?} vs {:?}", a, b));
+            ctx.require(a == b || a != a, "equal", class, || format!("{:?} vs {:?}", a, b)); dbg_same(ctx, class, a, b);
             refit_same(ctx, class, &|| fp::<_, String>(Ok(a.transform(&x2))), &|| fp::<_, String>(Ok(b.transform(&x2))));
         });
         let op = Optics::params_with::<F, _, _>(2 + rng.below(3), L2Dist, nn.clone()).tolerance(F::cast([2.0, 100.0][rng.below(2)]));
         let x2 = x.clone();
         rt(em, sw, "linfa-clustering::OpticsParams", tag, Norm::Exact, &op, &|a, b, ctx, class| {
-            ctx.require(a == b, "equal", class, || format!("{:?} vs {:?}", a, b));
+            ctx.require(a == b || a != a, "equal", class, || format!("{:?} vs {:?}", a, b)); dbg_same(ctx, class, a, b);
             refit_same(ctx, class, &|| fp(a.transform(x2.view())), &|| fp(b.transform(x2.view())));
         });
         let bado = Optics::params_with::<F, _, _>(1, L2Dist, nn.clone()).tolerance(F::cast(-1.0));
@@ -385,19 +440,21 @@ fn clustering<F: Fl>(em: &mut Em, rng: &mut Rng, sw: &mut Sweep) {
         let ovp = op.clone().check().unwrap();
         let x2 = x.clone();
         rt(em, sw, "linfa-clustering::OpticsValidParams", tag, Norm::Exact, &ovp, &|a, b, ctx, class| {
-            ctx.require(a == b, "equal", class, || format!("{:?} vs {:?}", a, b));
+            ctx.require(a == b || a != a, "equal", class, || format!("{:?} vs {:?}", a, b)); dbg_same(ctx, class, a, b);
             ctx.require(fb(a.tolerance()) == fb(b.tolerance()) && a.minimum_points() == b.minimum_points() && a.nn_algo() == b.nn_algo() && a.dist_fn() == b.dist_fn(), "accessors", class, || "accessor differs".into());
             refit_same(ctx, class, &|| fp::<_, String>(Ok(a.transform(x2.view()))), &|| fp::<_, String>(Ok(b.transform(x2.view()))));
         });
         {
             let an = ovp.transform(x.view());
             rt(em, sw, "linfa-clustering::OpticsAnalysis", tag, Norm::Exact, &an, &|a: &OpticsAnalysis<F>, b, ctx, class| {
-                ctx.require(a == b, "equal", class, || "analysis differs".into());
+                ctx.require(a == b || a != a, "equal", class, || "analysis differs".into()); dbg_same(ctx, class, a, b);
                 let key = |o: &OpticsAnalysis<F>| -> Vec<(usize, Option<u64>, Option<u64>)> { o.iter().map(|s| (s.index(), s.core_distance().map(fb), s.reachability_distance().map(fb))).collect() };
                 ctx.require(key(a) == key(b), "accessors", class, || "sample accessors differ".into());
             });
             for s in an.iter().take(3) {
                 rt(em, sw, "linfa-clustering::Sample", tag, Norm::Exact, s, &|a: &Sample<F>, b, ctx, class| {
+                    ctx.require(a == b || a != a, "equal", class, || format!("{:?} vs {:?}", a, b));
+                    dbg_same(ctx, class, a, b);
                     ctx.require(a.index() == b.index() && a.core_distance().map(fb) == b.core_distance().map(fb) && a.reachability_distance().map(fb) == b.reachability_distance().map(fb), "accessors", class, || "sample accessors differ".into());
                 });
             }
@@ -421,12 +478,13 @@ fn elasticnet<F: Fl>(em: &mut Em, rng: &mut Rng, sw: &mut Sweep) {
         let vp = ElasticNet::<F>::params().penalty(F::cast(pen)).l1_ratio(F::cast(l1)).with_intercept(rng.coin()).max_iterations(50 + rng.below(100) as u32).tolerance(F::cast(1e-4)).check().unwrap();
         let ds2 = ds.clone();
         rt(em, sw, "linfa-elasticnet::ElasticNetValidParamsBase", tag, Norm::Exact, &vp, &|a, b, ctx, class| {
-            ctx.require(a == b, "equal", class, || format!("{:?} vs {:?}", a, b));
+            ctx.require(a == b || a != a, "equal", class, || format!("{:?} vs {:?}", a, b)); dbg_same(ctx, class, a, b);
             ctx.require(fb(a.penalty()) == fb(b.penalty()) && fb(a.l1_ratio()) == fb(b.l1_ratio()) && a.with_intercept() == b.with_intercept() && a.max_iterations() == b.max_iterations() && fb(a.tolerance()) == fb(b.tolerance()), "accessors", class, || "accessor differs".into());
             refit_same(ctx, class, &|| fp(a.fit(&ds2)), &|| fp(b.fit(&ds2)));
         });
         if let Ok(m) = vp.fit(&ds) {
             rt(em, sw, "linfa-elasticnet::ElasticNet", tag, Norm::Exact, &m, &|a: &ElasticNet<F>, b, ctx, class| {
+                dbg_same(ctx, class, a, b);
                 same_arr(ctx, "accessors", class, "hyperplane", a.hyperplane(), b.hyperplane());
                 ctx.require(fb(a.intercept()) == fb(b.intercept()) && a.n_steps() == b.n_steps() && fb(a.duality_gap()) == fb(b.duality_gap()), "accessors", class, || "accessor differs".into());
                 ctx.require(a.z_score().ok().map(|z| bits(&z)) == b.z_score().ok().map(|z| bits(&z)), "accessors", class, || "z_score differs".into());
@@ -436,11 +494,12 @@ fn elasticnet<F: Fl>(em: &mut Em, rng: &mut Rng, sw: &mut Sweep) {
         let vpm = MultiTaskElasticNet::<F>::params().penalty(F::cast(pen)).l1_ratio(F::cast(l1)).max_iterations(60).tolerance(F::cast(1e-4)).check().unwrap();
         let ds2 = dsm.clone();
         rt(em, sw, "linfa-elasticnet::ElasticNetValidParamsBase", tag, Norm::Exact, &vpm, &|a, b, ctx, class| {
-            ctx.require(a == b, "equal", class, || format!("{:?} vs {:?}", a, b));
+            ctx.require(a == b || a != a, "equal", class, || format!("{:?} vs {:?}", a, b)); dbg_same(ctx, class, a, b);
             refit_same(ctx, class, &|| fp(a.fit(&ds2)), &|| fp(b.fit(&ds2)));
         });
         if let Ok(m) = vpm.fit(&dsm) {
             rt(em, sw, "linfa-elasticnet::MultiTaskElasticNet", tag, Norm::Exact, &m, &|a: &MultiTaskElasticNet<F>, b, ctx, class| {
+                dbg_same(ctx, class, a, b);
                 same_arr(ctx, "accessors", class, "hyperplane", a.hyperplane(), b.hyperplane());
                 same_arr(ctx, "accessors", class, "intercept", a.intercept(), b.intercept());
                 ctx.require(a.n_steps() == b.n_steps() && fb(a.duality_gap()) == fb(b.duality_gap()), "accessors", class, || "accessor differs".into());
@@ -471,7 +530,7 @@ fn ftrl<F: Fl>(em: &mut Em, rng: &mut Rng, sw: &mut Sweep) {
         let params = Ftrl::<F>::params_with_rng(Xoshiro256Plus::seed_from_u64(rng.next())).alpha(F::cast(0.1 + rng.unit())).beta(F::cast(rng.unit())).l1_ratio(F::cast(rng.unit())).l2_ratio(F::cast(rng.unit()));
         let ds2 = ds.clone();
         rt(em, sw, "linfa-ftrl::FtrlParams", tag, Norm::Exact, &params, &|a, b, ctx, class| {
-            ctx.require(a == b, "equal", class, || format!("{:?} vs {:?}", a, b));
+            ctx.require(a == b || a != a, "equal", class, || format!("{:?} vs {:?}", a, b)); dbg_same(ctx, class, a, b);
             refit_same(ctx, class, &|| fp(a.fit_with(None, &ds2)), &|| fp(b.fit_with(None, &ds2)));
         });
         let bad = Ftrl::<F>::params().alpha(F::cast(-1.0));
@@ -481,7 +540,7 @@ fn ftrl<F: Fl>(em: &mut Em, rng: &mut Rng, sw: &mut Sweep) {
         let vp = params.clone().check().unwrap();
         let ds2 = ds.clone();
         rt(em, sw, "linfa-ftrl::FtrlValidParams", tag, Norm::Exact, &vp, &|a, b, ctx, class| {
-            ctx.require(a == b, "equal", class, || format!("{:?} vs {:?}", a, b));
+            ctx.require(a == b || a != a, "equal", class, || format!("{:?} vs {:?}", a, b)); dbg_same(ctx, class, a, b);
             ctx.require(fb(a.alpha()) == fb(b.alpha()) && fb(a.beta()) == fb(b.beta()) && fb(a.l1_ratio()) == fb(b.l1_ratio()) && fb(a.l2_ratio()) == fb(b.l2_ratio()) && a.rng() == b.rng(), "accessors", class, || "accessor differs".into());
             refit_same(ctx, class, &|| fp(a.fit_with(None, &ds2)), &|| fp(b.fit_with(None, &ds2)));
         });
@@ -490,6 +549,7 @@ fn ftrl<F: Fl>(em: &mut Em, rng: &mut Rng, sw: &mut Sweep) {
         let ds2 = ds.clone();
         let vp2 = vp.clone();
         rt(em, sw, "linfa-ftrl::Ftrl", tag, Norm::Exact, &m, &|a: &Ftrl<F>, b, ctx, class| {
+            dbg_same(ctx, class, a, b);
             same_arr(ctx, "accessors", class, "z", a.z(), b.z());
             same_arr(ctx, "accessors", class, "n", a.n(), b.n());
             same_arr(ctx, "accessors", class, "weights", &a.get_weights(), &b.get_weights());
@@ -522,13 +582,13 @@ fn ica<F: Fl>(em: &mut Em, rng: &mut Rng, sw: &mut Sweep) {
         let vp = FastIca::<F>::params().ncomponents(p).gfunc([GFunc::Logcosh(1.0), GFunc::Exp, GFunc::Cube][(it + rng.below(2)) % 3]).max_iter(100).tol(F::cast(1e-3)).random_state(rng.below(1000)).check().unwrap();
         let ds2 = ds.clone();
         rt(em, sw, "linfa-ica::FastIcaValidParams", tag, Norm::Exact, &vp, &|a, b, ctx, class| {
-            ctx.require(a == b, "equal", class, || format!("{:?} vs {:?}", a, b));
+            ctx.require(a == b || a != a, "equal", class, || format!("{:?} vs {:?}", a, b)); dbg_same(ctx, class, a, b);
             ctx.require(a.ncomponents() == b.ncomponents() && a.gfunc() == b.gfunc() && a.max_iter() == b.max_iter() && fb(a.tol()) == fb(b.tol()) && a.random_state() == b.random_state(), "accessors", class, || "accessor differs".into());
             refit_same(ctx, class, &|| fp(a.fit(&ds2)), &|| fp(b.fit(&ds2)));
         });
         if let Ok(m) = vp.fit(&ds) {
             rt(em, sw, "linfa-ica::FastIca", tag, Norm::Exact, &m, &|a: &FastIca<F>, b, ctx, class| {
-                ctx.require(a == b, "equal", class, || "models differ".into());
+                ctx.require(a == b || a != a, "equal", class, || "models differ".into()); dbg_same(ctx, class, a, b);
                 same_arr(ctx, "predict", class, "predict", &a.predict(&fresh), &b.predict(&fresh));
             });
         }
@@ -546,12 +606,12 @@ fn reduction(em: &mut Em, rng: &mut Rng, sw: &mut Sweep) {
         let params = Pca::params(1 + rng.below(p)).whiten(it % 2 == 1);
         let ds2 = ds.clone();
         rt(em, sw, "linfa-reduction::PcaParams", tag, Norm::Exact, &params, &|a, b, ctx, class| {
-            ctx.require(a == b, "equal", class, || format!("{:?} vs {:?}", a, b));
+            ctx.require(a == b || a != a, "equal", class, || format!("{:?} vs {:?}", a, b)); dbg_same(ctx, class, a, b);
             refit_same(ctx, class, &|| fp(a.fit(&ds2)), &|| fp(b.fit(&ds2)));
         });
         if let Ok(m) = params.fit(&ds) {
             rt(em, sw, "linfa-reduction::Pca", tag, Norm::Exact, &m, &|a: &Pca<f64>, b, ctx, class| {
-                ctx.require(a == b, "equal", class, || "models differ".into());
+                ctx.require(a == b || a != a, "equal", class, || "models differ".into()); dbg_same(ctx, class, a, b);
                 same_arr(ctx, "accessors", class, "components", a.components(), b.components());
                 same_arr(ctx, "accessors", class, "mean", a.mean(), b.mean());
                 same_arr(ctx, "accessors", class, "singular_values", a.singular_values(), b.singular_values());
@@ -577,7 +637,7 @@ fn pls<F: Fl>(em: &mut Em, rng: &mut Rng, sw: &mut Sweep) {
                 if let Ok(m) = $ty::<F>::params(k).scale(rng.coin()).fit(&ds) {
                     let ds3 = ds.clone();
                     rt(em, sw, $id, tag, Norm::Exact, &m, &|a: &$ty<F>, b, ctx, class| {
-                        ctx.require(a == b, "equal", class, || "models differ".into());
+                        ctx.require(a == b || a != a, "equal", class, || "models differ".into()); dbg_same(ctx, class, a, b);
                         same_arr(ctx, "accessors", class, "weights", a.weights().0, b.weights().0);
                         same_arr(ctx, "accessors", class, "loadings", a.loadings().1, b.loadings().1);
                         same_arr(ctx, "accessors", class, "rotations", a.rotations().0, b.rotations().0);
@@ -596,7 +656,7 @@ fn pls<F: Fl>(em: &mut Em, rng: &mut Rng, sw: &mut Sweep) {
         let sp = PlsSvd::<F>::params(k).scale(it == 0);
         let ds2 = ds.clone();
         rt(em, sw, "linfa-pls::PlsSvdParams", tag, Norm::Exact, &sp, &|a, b, ctx, class| {
-            ctx.require(a == b, "equal", class, || format!("{:?} vs {:?}", a, b));
+            ctx.require(a == b || a != a, "equal", class, || format!("{:?} vs {:?}", a, b)); dbg_same(ctx, class, a, b);
             let f = |p: &PlsSvdParams| -> String {
                 match Fit::<Array2<F>, Array2<F>, PlsError>::fit(p, &ds2) {
                     Ok(m) => {
@@ -620,7 +680,7 @@ fn kernel_svm<F: Fl>(em: &mut Em, rng: &mut Rng, sw: &mut Sweep) {
     for m in methods.iter() {
         let pts = pts.clone();
         rt(em, sw, "linfa-kernel::KernelMethod", tag, Norm::Exact, m, &|a, b, ctx, class| {
-            ctx.require(a == b, "equal", class, || format!("{:?} vs {:?}", a, b));
+            ctx.require(a == b || a != a, "equal", class, || format!("{:?} vs {:?}", a, b)); dbg_same(ctx, class, a, b);
             ctx.require(fb(a.distance(pts.row(0), pts.row(1))) == fb(b.distance(pts.row(0), pts.row(1))), "predict", class, || "kernel value differs".into());
         });
     }
@@ -637,7 +697,7 @@ fn kernel_svm<F: Fl>(em: &mut Em, rng: &mut Rng, sw: &mut Sweep) {
             let k: Kernel<F> = Kernel::params().kind(kind).method(methods[it % 3].clone()).transform(&x);
             let rhs: Array2<F> = records(rng, n, 2);
             rt(em, sw, "linfa-kernel::KernelBase", tag, Norm::Exact, &k, &|a: &Kernel<F>, b, ctx, class| {
-                ctx.require(a == b, "equal", class, || "kernels differ".into());
+                ctx.require(a == b || a != a, "equal", class, || "kernels differ".into()); dbg_same(ctx, class, a, b);
                 ctx.require(a.size() == b.size() && a.is_linear() == b.is_linear(), "accessors", class, || "size / is_linear".into());
                 same_arr(ctx, "accessors", class, "diagonal", &a.diagonal(), &b.diagonal());
                 same_arr(ctx, "accessors", class, "sum", &a.sum(), &b.sum());
@@ -659,7 +719,7 @@ fn kernel_svm<F: Fl>(em: &mut Em, rng: &mut Rng, sw: &mut Sweep) {
         };
         if let Ok(m) = base().fit(&dsb) {
             let sbehav = |a: &Svm<F, bool>, b: &Svm<F, bool>, ctx: &mut Ctx, class: &str| {
-                ctx.require(a == b, "equal", class, || "models differ".into());
+                ctx.require(a == b || a != a, "equal", class, || "models differ".into()); dbg_same(ctx, class, a, b);
                 ctx.require(a.nsupport() == b.nsupport() && fb(a.rho) == fb(b.rho) && a.alpha.iter().map(|v| fb(*v)).collect::<Vec<_>>() == b.alpha.iter().map(|v| fb(*v)).collect::<Vec<_>>(), "accessors", class, || "alpha / rho / nsupport".into());
                 ctx.require(a.to_string() == b.to_string(), "accessors", class, || "Display differs".into());
                 let (pa, pb): (Array1<bool>, Array1<bool>) = (a.predict(&fresh), b.predict(&fresh));
@@ -673,7 +733,7 @@ fn kernel_svm<F: Fl>(em: &mut Em, rng: &mut Rng, sw: &mut Sweep) {
         let dsp = Dataset::new(x.clone(), yl.mapv(|v| v == 1));
         if let Ok(m) = Svm::<F, Pr>::params().gaussian_kernel(F::cast(3.0)).pos_neg_weights(F::cast(2.0), F::cast(2.0)).fit(&dsp) {
             rt(em, sw, "linfa-svm::Svm", tag, Norm::Exact, &m, &|a: &Svm<F, Pr>, b, ctx, class| {
-                ctx.require(a == b, "equal", class, || "models differ".into());
+                ctx.require(a == b || a != a, "equal", class, || "models differ".into()); dbg_same(ctx, class, a, b);
                 let (pa, pb): (Array1<Pr>, Array1<Pr>) = (a.predict(&fresh), b.predict(&fresh));
                 ctx.require(pa.iter().map(|x| x.to_bits()).collect::<Vec<_>>() == pb.iter().map(|x| x.to_bits()).collect::<Vec<_>>(), "predict", class, || "probabilities differ".into());
             });
@@ -700,7 +760,7 @@ fn $fname(em: &mut Em, rng: &mut Rng, sw: &mut Sweep) {
         let q = if it == 0 { Svm::<F, F>::params().c_svr(10.0, Some(0.1)).linear_kernel() } else { Svm::<F, F>::params().nu_svr(0.5, Some(5.0)).gaussian_kernel(10.0) };
         if let Ok(m) = q.fit(&ds) {
             rt(em, sw, "linfa-svm::Svm", tag, Norm::Exact, &m, &|a: &Svm<F, F>, b, ctx, class| {
-                ctx.require(a == b, "equal", class, || "models differ".into());
+                ctx.require(a == b || a != a, "equal", class, || "models differ".into()); dbg_same(ctx, class, a, b);
                 let (pa, pb): (Array1<F>, Array1<F>) = (a.predict(&fresh), b.predict(&fresh));
                 same_arr(ctx, "predict", class, "predict", &pa, &pb);
             });
@@ -734,7 +794,7 @@ fn $fname(em: &mut Em, rng: &mut Rng, sw: &mut Sweep) {
         }
         let ds2 = dss.clone();
         rt(em, sw, "linfa-logistic::LogisticRegressionParams", tag, Norm::Exact, &params, &|a, b, ctx, class| {
-            ctx.require(a == b, "equal", class, || format!("{:?} vs {:?}", a, b));
+            ctx.require(a == b || a != a, "equal", class, || format!("{:?} vs {:?}", a, b)); dbg_same(ctx, class, a, b);
             refit_same(ctx, class, &|| fp(a.fit(&ds2)), &|| fp(b.fit(&ds2)));
         });
         let bad: LogisticRegression<F> = LogisticRegression::default().alpha(-1.0 as F);
@@ -744,13 +804,13 @@ fn $fname(em: &mut Em, rng: &mut Rng, sw: &mut Sweep) {
         let vp: ValidLogisticRegression<F> = params.clone().check().unwrap();
         let ds2 = dss.clone();
         rt(em, sw, "linfa-logistic::LogisticRegressionValidParams", tag, Norm::Exact, &vp, &|a, b, ctx, class| {
-            ctx.require(a == b, "equal", class, || format!("{:?} vs {:?}", a, b));
+            ctx.require(a == b || a != a, "equal", class, || format!("{:?} vs {:?}", a, b)); dbg_same(ctx, class, a, b);
             refit_same(ctx, class, &|| fp(a.fit(&ds2)), &|| fp(b.fit(&ds2)));
         });
         if let Ok(m) = vp.fit(&dss) {
             let m = if it == 1 { m.set_threshold(0.3 as F) } else { m };
             rt(em, sw, "linfa-logistic::FittedLogisticRegression", tag, Norm::Exact, &m, &|a: &FittedLogisticRegression<F, String>, b, ctx, class| {
-                ctx.require(a == b, "equal", class, || "models differ".into());
+                ctx.require(a == b || a != a, "equal", class, || "models differ".into()); dbg_same(ctx, class, a, b);
                 same_arr(ctx, "accessors", class, "params", a.params(), b.params());
                 ctx.require(fb(a.intercept()) == fb(b.intercept()) && a.labels() == b.labels(), "accessors", class, || "intercept / labels".into());
                 ctx.require(a.predict(&fresh) == b.predict(&fresh), "predict", class, || "predict differs".into());
@@ -770,18 +830,18 @@ fn $fname(em: &mut Em, rng: &mut Rng, sw: &mut Sweep) {
         }
         let ds2 = dsm.clone();
         rt(em, sw, "linfa-logistic::LogisticRegressionParams", tag, Norm::Exact, &mp, &|a, b, ctx, class| {
-            ctx.require(a == b, "equal", class, || format!("{:?} vs {:?}", a, b));
+            ctx.require(a == b || a != a, "equal", class, || format!("{:?} vs {:?}", a, b)); dbg_same(ctx, class, a, b);
             refit_same(ctx, class, &|| fp(a.fit(&ds2)), &|| fp(b.fit(&ds2)));
         });
         let mvp: ValidMultiLogisticRegression<F> = mp.clone().check().unwrap();
         let ds2 = dsm.clone();
         rt(em, sw, "linfa-logistic::LogisticRegressionValidParams", tag, Norm::Exact, &mvp, &|a, b, ctx, class| {
-            ctx.require(a == b, "equal", class, || format!("{:?} vs {:?}", a, b));
+            ctx.require(a == b || a != a, "equal", class, || format!("{:?} vs {:?}", a, b)); dbg_same(ctx, class, a, b);
             refit_same(ctx, class, &|| fp(a.fit(&ds2)), &|| fp(b.fit(&ds2)));
         });
         if let Ok(m) = mvp.fit(&dsm) {
             rt(em, sw, "linfa-logistic::MultiFittedLogisticRegression", tag, Norm::Exact, &m, &|a: &MultiFittedLogisticRegression<F, usize>, b, ctx, class| {
-                ctx.require(a == b, "equal", class, || "models differ".into());
+                ctx.require(a == b || a != a, "equal", class, || "models differ".into()); dbg_same(ctx, class, a, b);
                 same_arr(ctx, "accessors", class, "params", a.params(), b.params());
                 same_arr(ctx, "accessors", class, "intercept", a.intercept(), b.intercept());
                 ctx.require(a.classes() == b.classes(), "accessors", class, || "classes".into());
@@ -839,7 +899,7 @@ fn trees<F: Fl>(em: &mut Em, rng: &mut Rng, sw: &mut Sweep) {
         let params = DecisionTree::<F, usize>::params().split_quality([SplitQuality::Gini, SplitQuality::Entropy][it % 2]).max_depth(if det { None } else { [None, Some(2), Some(5)][rng.below(3)] }).min_weight_split(if det { 2.0 } else { 2.0 + rng.below(3) as f32 }).min_weight_leaf(1.0).min_impurity_decrease(F::cast(1e-5));
         let ds2 = ds.clone();
         rt(em, sw, "linfa-trees::DecisionTreeParams", tag, Norm::Exact, &params, &|a, b, ctx, class| {
-            ctx.require(a == b, "equal", class, || format!("{:?} vs {:?}", a, b));
+            ctx.require(a == b || a != a, "equal", class, || format!("{:?} vs {:?}", a, b)); dbg_same(ctx, class, a, b);
             if det {
                 refit_same(ctx, class, &|| tree_fp(a.fit(&ds2), &fresh), &|| tree_fp(b.fit(&ds2), &fresh));
             }
@@ -851,7 +911,7 @@ fn trees<F: Fl>(em: &mut Em, rng: &mut Rng, sw: &mut Sweep) {
         let vp = params.check().unwrap();
         let ds2 = ds.clone();
         rt(em, sw, "linfa-trees::DecisionTreeValidParams", tag, Norm::Exact, &vp, &|a, b, ctx, class| {
-            ctx.require(a == b, "equal", class, || format!("{:?} vs {:?}", a, b));
+            ctx.require(a == b || a != a, "equal", class, || format!("{:?} vs {:?}", a, b)); dbg_same(ctx, class, a, b);
             ctx.require(a.split_quality() == b.split_quality() && a.max_depth() == b.max_depth() && a.min_weight_split().to_bits() == b.min_weight_split().to_bits() && a.min_weight_leaf().to_bits() == b.min_weight_leaf().to_bits() && fb(a.min_impurity_decrease()) == fb(b.min_impurity_decrease()), "accessors", class, || "accessor differs".into());
             if det {
                 refit_same(ctx, class, &|| tree_fp(a.fit(&ds2), &fresh), &|| tree_fp(b.fit(&ds2), &fresh));
@@ -859,15 +919,15 @@ fn trees<F: Fl>(em: &mut Em, rng: &mut Rng, sw: &mut Sweep) {
         });
         if let Ok(m) = vp.fit(&ds) {
             rt(em, sw, "linfa-trees::DecisionTree", tag, Norm::Exact, &m, &|a: &DecisionTree<F, usize>, b, ctx, class| {
-                ctx.require(a == b, "equal", class, || "trees differ".into());
-                ctx.require(a.max_depth() == b.max_depth() && a.num_leaves() == b.num_leaves() && { let (mut fa, mut fb_) = (a.features(), b.features()); fa.sort(); fb_.sort(); fa == fb_ }, "accessors", class, || "depth / leaves / features".into());
+                ctx.require(a == b || a != a, "equal", class, || "trees differ".into()); dbg_same(ctx, class, a, b);
+                ctx.require(a.max_depth() == b.max_depth() && a.num_leaves() == b.num_leaves() && sorted(a.features()) == sorted(b.features()), "accessors", class, || "depth / leaves / features".into());
                 ctx.require(a.feature_importance().iter().map(|v| fb(*v)).collect::<Vec<_>>() == b.feature_importance().iter().map(|v| fb(*v)).collect::<Vec<_>>(), "accessors", class, || "feature_importance".into());
                 let key = |t: &DecisionTree<F, usize>| -> Vec<(bool, usize, Option<usize>, usize, u64, u64, Option<String>)> { t.iter_nodes().map(|n| (n.is_leaf(), n.depth(), n.prediction(), n.split().0, fb(n.split().1), fb(n.split().2), n.feature_name().cloned())).collect() };
                 ctx.require(key(a) == key(b), "accessors", class, || "node walk differs".into());
                 ctx.require(a.predict(&fresh) == b.predict(&fresh), "predict", class, || "predict differs".into());
             });
             rt(em, sw, "linfa-trees::TreeNode", tag, Norm::Exact, m.root_node(), &|a: &TreeNode<F, usize>, b, ctx, class| {
-                ctx.require(a == b, "equal", class, || "nodes differ".into());
+                ctx.require(a == b || a != a, "equal", class, || "nodes differ".into()); dbg_same(ctx, class, a, b);
                 ctx.require(a.is_leaf() == b.is_leaf() && a.depth() == b.depth() && a.prediction() == b.prediction() && a.split().0 == b.split().0 && fb(a.split().1) == fb(b.split().1), "accessors", class, || "node accessors".into());
             });
         }
@@ -892,14 +952,14 @@ fn preprocessing<F: Fl>(em: &mut Em, rng: &mut Rng, sw: &mut Sweep) {
         for sp in all.iter() {
             let ds2 = ds.clone();
             rt(em, sw, "linfa-preprocessing::LinearScalerParams", tag, Norm::Exact, sp, &|a, b, ctx, class| {
-                ctx.require(a == b, "equal", class, || format!("{:?} vs {:?}", a, b));
+                ctx.require(a == b || a != a, "equal", class, || format!("{:?} vs {:?}", a, b)); dbg_same(ctx, class, a, b);
                 refit_same(ctx, class, &|| fp(a.fit(&ds2)), &|| fp(b.fit(&ds2)));
             });
             if let Ok(m) = sp.fit(&ds) {
                 rt(em, sw, "linfa-preprocessing::ScalingMethod", tag, Norm::Exact, m.method(), eqb!());
                 let fresh = fresh.clone();
                 rt(em, sw, "linfa-preprocessing::LinearScaler", tag, Norm::Exact, &m, &|a: &LinearScaler<F>, b, ctx, class| {
-                    ctx.require(a == b, "equal", class, || "scalers differ".into());
+                    ctx.require(a == b || a != a, "equal", class, || "scalers differ".into()); dbg_same(ctx, class, a, b);
                     same_arr(ctx, "accessors", class, "offsets", a.offsets(), b.offsets());
                     same_arr(ctx, "accessors", class, "scales", a.scales(), b.scales());
                     ctx.require(a.method() == b.method(), "accessors", class, || "method".into());
@@ -910,7 +970,7 @@ fn preprocessing<F: Fl>(em: &mut Em, rng: &mut Rng, sw: &mut Sweep) {
         for ns in [NormScaler::l1(), NormScaler::l2(), NormScaler::max()] {
             let fresh = fresh.clone();
             rt(em, sw, "linfa-preprocessing::NormScaler", tag, Norm::Exact, &ns, &|a, b, ctx, class| {
-                ctx.require(a == b, "equal", class, || format!("{:?} vs {:?}", a, b));
+                ctx.require(a == b || a != a, "equal", class, || format!("{:?} vs {:?}", a, b)); dbg_same(ctx, class, a, b);
                 same_arr(ctx, "predict", class, "transform", &a.transform(fresh.clone()), &b.transform(fresh.clone()));
             });
         }
@@ -918,14 +978,14 @@ fn preprocessing<F: Fl>(em: &mut Em, rng: &mut Rng, sw: &mut Sweep) {
             rt(em, sw, "linfa-preprocessing::WhiteningMethod", tag, Norm::Exact, &wm, eqb!());
             let ds2 = ds.clone();
             rt(em, sw, "linfa-preprocessing::Whitener", tag, Norm::Exact, &w, &|a, b, ctx, class| {
-                ctx.require(a == b, "equal", class, || format!("{:?} vs {:?}", a, b));
+                ctx.require(a == b || a != a, "equal", class, || format!("{:?} vs {:?}", a, b)); dbg_same(ctx, class, a, b);
                 refit_same(ctx, class, &|| fp(a.fit(&ds2)), &|| fp(b.fit(&ds2)));
             });
             if it == 0 || rng.coin() {
                 if let Ok(m) = w.fit(&ds) {
                     let fresh = fresh.clone();
                     rt(em, sw, "linfa-preprocessing::FittedWhitener", tag, Norm::Exact, &m, &|a: &FittedWhitener<F>, b, ctx, class| {
-                        ctx.require(a == b, "equal", class, || "whiteners differ".into());
+                        ctx.require(a == b || a != a, "equal", class, || "whiteners differ".into()); dbg_same(ctx, class, a, b);
                         same_arr(ctx, "accessors", class, "transformation_matrix", &a.transformation_matrix(), &b.transformation_matrix());
                         same_arr(ctx, "accessors", class, "mean", &a.mean(), &b.mean());
                         same_arr(ctx, "predict", class, "transform", &a.transform(fresh.clone()), &b.transform(fresh.clone()));
@@ -1009,7 +1069,7 @@ fn text(em: &mut Em, rng: &mut Rng, sw: &mut Sweep) {
         let d3 = docs.clone();
         let pb = pbehav.clone();
         rt(em, sw, "linfa-preprocessing::CountVectorizerValidParams", tag, norm, &vp, &|a, b, ctx, class| {
-            ctx.require(a.max_features() == b.max_features() && a.convert_to_lowercase() == b.convert_to_lowercase() && a.n_gram_range() == b.n_gram_range() && a.normalize() == b.normalize() && a.document_frequency().0.to_bits() == b.document_frequency().0.to_bits() && a.stopwords() == b.stopwords(), "accessors", class, || "accessor differs".into());
+            ctx.require(a.max_features() == b.max_features() && a.convert_to_lowercase() == b.convert_to_lowercase() && a.n_gram_range() == b.n_gram_range() && a.normalize() == b.normalize() && a.document_frequency().0.to_bits() == b.document_frequency().0.to_bits() && a.document_frequency().1.to_bits() == b.document_frequency().1.to_bits() && a.stopwords() == b.stopwords(), "accessors", class, || "accessor differs".into());
             pb(&|| a.fit(&d3).map_err(|e| e.to_string()), &|| b.fit(&d3).map_err(|e| e.to_string()), ctx, class);
         });
         let model = params.fit(&docs).unwrap();
@@ -1068,8 +1128,9 @@ fn text(em: &mut Em, rng: &mut Rng, sw: &mut Sweep) {
 
 pub fn sweep(em: &mut Em, rng: &mut Rng, sw: &mut Sweep) {
     let reps = if em.thorough() { 6 } else { 1 };
-    for _ in 0..reps {
+    for r in 0..reps {
         sweep_once(em, rng, sw);
+        super::c19_extra::sweep_extra(em, rng, sw, r == 0);
     }
 }
 
